@@ -320,6 +320,28 @@ def repr_oracle_term(v, node=None):
     return '[' + '; '.join(ents) + ']'
 
 
+def share_in_value(rnd, v, depth=0):
+    """Makes the SAME Python object occur twice somewhere inside v (in place): a list gets its first element appended again,
+    a dict gets its first value under a further key.  Types are preserved.  Returns True when something was shared."""
+    if depth > 6:
+        return False
+    kids = []
+    if isinstance(v, list):
+        kids = list(v)
+        if v and rnd.random() < 0.6:
+            v.append(v[0])
+            return True
+    elif isinstance(v, dict):
+        kids = list(v.values())
+        if v and 'dupkey' not in v and all(isinstance(k, str) for k in v) and rnd.random() < 0.6:
+            v['dupkey'] = next(iter(v.values()))
+            return True
+    elif hasattr(v, '_verif_kwargs'):
+        kids = [getattr(v, k) for k in vars(v) if not k.startswith('_verif') and k != '_yatiml_extra']
+    rnd.shuffle(kids)
+    return any(share_in_value(rnd, k, depth + 1) for k in kids if isinstance(k, (list, dict)) or hasattr(k, '_verif_kwargs'))
+
+
 def structurally_equal(a, b):
     if isinstance(a, dict) and isinstance(b, dict):
         a, b = dict(a), dict(b)         # OrderedDict and dict are the same YAML mapping; order is compared below
